@@ -60,6 +60,14 @@ AbsentMandatoryAddition(env, T, v) ==
      LET ty == ns[h][1]  x == ns[h][2]  ms == AllMembers(ty) IN
      \E g \in (Len(ty.root) + 1)..Len(ms) : ms[g].q = "M" /\ ~x[ms[g].n].p
 
+\* an absent component `x NULL DEFAULT NULL`: the compiled default is Python None, which the codecs
+\* read as "no default", so the text encoders demand the component
+AbsentNullDefault(env, T, v) ==
+  LET ns == TxSeqNodes(env, T, v) IN
+  \E h \in 1..Len(ns) :
+     LET ty == ns[h][1]  x == ns[h][2]  ms == AllMembers(ty) IN
+     \E g \in 1..Len(ms) : ms[g].q = "D" /\ Base(env, ms[g].t).k = "NULL" /\ ~x[ms[g].n].p
+
 HasRealLeaf(env, T, v, P(_)) == TxAnyLeaf(env, T, v, LAMBDA t, x : t.k = "REAL" /\ P(x))
 
 ------------------------------------------------------------------------------
@@ -103,12 +111,14 @@ App(S) == IF S = {} THEN "" ELSE " applicable:" \o ToString(S)
 DocVerdicts(L, o, v, d, first, tjFirst) ==
   LET env == L.env
       T == env.types[L.top]
-      at(c) == c \o "@" \o d.ind
+      at(c) == c
       \* what may excuse a failing encoder: only the failure the class predicts
       encClasses == (IF o.codec = "xer" /\ d.enc.st = "timeout" /\ HasRealLeaf(env, T, v, XerRealInfinite)
                      THEN {"XerRealInfinite"} ELSE {})
                     \cup (IF d.enc.st = "exc" /\ d.enc.cls = "EncodeError" /\ AbsentMandatoryAddition(env, T, v)
                           THEN {"AbsentMandatoryAddition"} ELSE {})
+                    \cup (IF d.enc.st = "exc" /\ d.enc.cls = "EncodeError" /\ AbsentNullDefault(env, T, v)
+                          THEN {"AbsentNullDefault"} ELSE {})
   IN
   IF d.enc.st # "ok" THEN <<V(at("ENC"), "reject", ExcKey("enc", d.enc) \o App(encClasses))>>
   ELSE IF ~d.wf.ok THEN
@@ -117,7 +127,7 @@ DocVerdicts(L, o, v, d, first, tjFirst) ==
   ELSE
   LET same == Has(d, "same")
       rec == IF same THEN first.tree ELSE d.tree
-      tj == IF same THEN tjFirst ELSE TreeJudgement(L, o, v, rec)
+      tj == IF same \/ d.ind = first.ind THEN tjFirst ELSE TreeJudgement(L, o, v, rec)
       devOnly == tj.S \ Benign(o.codec)
       rj == IF tj.res = "none" THEN [n |-> 0, bad |-> 0, classes |-> {}, unexplained |-> FALSE, first |-> ""]
             ELSE RealJudgement(o.codec, tj, rec)
@@ -156,7 +166,13 @@ ObsJudge(L, o) ==
                    tjFirst == IF first.enc.st = "ok" /\ first.wf.ok /\ Has(first, "tree")
                               THEN TreeJudgement(L, o, v, first.tree)
                               ELSE [res |-> "none", S |-> {}, e |-> JNull]
-               IN [vs |-> Concat([h \in 1..Len(o.docs) |-> DocVerdicts(L, o, v, o.docs[h], first, tjFirst)]),
+                   fv == DocVerdicts(L, o, v, first, first, tjFirst)
+                   \* a document with the same recorded tree and the same decoder outcome as the first one
+                   \* gets the first one's verdicts
+                   asFirst(d) == d.enc.st = "ok" /\ d.wf.ok /\ Has(d, "same") /\ Has(d, "dsame")
+                   dv(h) == IF h = 1 \/ asFirst(o.docs[h]) THEN fv ELSE DocVerdicts(L, o, v, o.docs[h], first, tjFirst)
+                   named(h) == LET vs == dv(h) IN [g \in 1..Len(vs) |-> V(vs[g].check \o "@" \o o.docs[h].ind, vs[g].verdict, vs[g].detail)]
+               IN [vs |-> Concat([h \in 1..Len(o.docs) |-> named(h)]),
                    bn |-> tjFirst.S \cap Benign(o.codec)]
 
 LineReport(L) ==
